@@ -35,9 +35,10 @@ def has_roster_hook():
 LAUNCHPH = {"launched", "locked", "deployed"}
 SAFETY = "SameIdentity IdentityStable"
 # RestartGen "invariants" whose shortest counterexamples are scenario shapes: leftovers + a KILL accepted and lost + the
-# round that is due; the same with a KILL refused while other leftovers keep the core talking; a deployment completed while
-# a teardown was held at its KILL calls, then a reconnection
-PROBES = ["ProbeLostKill", "ProbeRefusedKill", "ProbeOverlap"]
+# round that is due; the same with a KILL refused while other leftovers keep the core talking; the same with an environment
+# deployed by the new life between the lost KILL and the reconnection; a deployment completed while a teardown was held
+# at its KILL calls, then a reconnection
+PROBES = ["ProbeLostKill", "ProbeRefusedKill", "ProbeLostKillDeployed", "ProbeOverlap"]
 WORKERS = max(4, vlib.NCPU // 2)
 
 
@@ -104,6 +105,7 @@ class Conv:
         self.sid, self.acts, self.dv, self.seed, self.origin = sid, acts, dv, seed, origin
         self.owed = False       # a KILL call has been lost: the disconnection that is due has not come yet ("driver" | "client")
         self.client_drop = False
+        self.restarted = False    # the core has been killed and started again in this scenario
         self.steps, self.files = [], {}
         self.child = any(a["act"] == "Crash" for a in acts)
         self.op = None          # outstanding asynchronous request
@@ -140,6 +142,9 @@ class Conv:
             self.emit(do="snapshot")
         else:
             self.emit(do="settle", ms=200)
+            if self.restarted and not self.op and all(ph not in TRANSIENT for ph in st["env"].values()):
+                # a later life, nothing in progress: whatever the master has alive must be in the roster by now
+                self.emit(do="c18_waitorphans", timeout_ms=3000)
             self.emit(do="snapshot")
             for e in sorted(st["env"]):
                 if st["env"][e] in ("configured", "running"):
@@ -349,6 +354,10 @@ class Conv:
             elif act == "NewEnv":
                 self.flush(prev)
                 self.fresh_life = False
+                if "LAUNCH" in self.held:
+                    # reports held back for the tasks of an earlier request (leftovers by now): the new deployment needs its own
+                    self.release("LAUNCH")
+                    self.emit(do="settle", ms=60)
                 n = self.ntasks_for(i, e)
                 wf = self.new_wf(n)
                 self.start_async(i, e, st, "create", "ConfigureDone",
@@ -394,6 +403,7 @@ class Conv:
                     self.down = True
                     self.after_crash = True
                     self.fresh_life = True
+                    self.restarted = True
                     if mid:
                         self.release("KILL", "drop")
                     if self.op:
@@ -559,6 +569,8 @@ def fault_points(acts):
             if not crash and prev.get("owed"):
                 kind = [b["act"] for b in acts[:i] if b["act"] in ("KillLost", "KillRefused")]
                 lostflag = "!refusedkill" if kind and kind[-1] == "KillRefused" else "!lostkill"
+                if any(v in ("configured", "running") for v in prev["env"].values()):
+                    lostflag += "@deployed"   # an environment deployed between the lost KILL and the reconnection
             flags = lostflag + ("+overlap" if overlap else "")
             overlap = False
             pts.append({"fault": "crash" if crash else "drop", "class": cls, "transient": ph, "tasks": ("/".join(stg) or "-") + flags,
@@ -722,7 +734,7 @@ def project(lines):
                         "alive": [t["task"] for t in ln["master"] if not t["terminal"] and not t.get("kills", 0)]})
         elif ev == "Poll":
             out.append({"ev": ev, "scn": scn, "env": g("env"), "st": g("st"), "reached": bool(g("reached", False))})
-        elif ev == "Quiesced":
+        elif ev in ("Quiesced", "Orphans"):
             out.append({"ev": ev, "scn": scn, "alive": list(g("alive", []))})
     return out
 
@@ -762,7 +774,7 @@ def run(ctx):
                     workers=WORKERS, timeout=900)
     if ctx.model_runs[-1]["result"] != "ok":
         raise vlib.Inconclusive("the repaired design violates its own properties: " + ctx.model_runs[-1]["result"])
-    two = consts(["k1", "k2"], ["e1", "e2"], 1 if quick else 2, 1 if quick else 2, fixed)
+    two = consts(["k1", "k2"], ["e1", "e2"], 1 if quick else 2, 1 if quick else 2, fixed, 0 if quick else 1)
     ctx.model_check("Restart", "repaired-2env", cfg_text=cfg_model(two, allp, INVS),
                     workers=WORKERS, timeout=900)
     if ctx.model_runs[-1]["result"] != "ok":
@@ -777,7 +789,7 @@ def run(ctx):
     # 2. the tree as described by the open deviations: the other properties hold, the deviation shows
     cex = []
     if any(dv.values()):
-        asis = consts(["k1", "k2"], ["e1"], 2, 1 if quick else 2, dv)
+        asis = consts(["k1", "k2"], ["e1"], 2, 1 if quick else 2, dv, 0 if quick else 1)
         ctx.model_check("Restart", "as-found", cfg_text=cfg_model(asis, SAFETY + " NoOrphans"), workers=WORKERS, timeout=900)
         if ctx.model_runs[-1]["result"] != "ok":
             raise vlib.Inconclusive("the model of the tree as found breaks a property it should keep: " + ctx.model_runs[-1]["result"])
@@ -882,7 +894,8 @@ def run(ctx):
     ctx.extra["fault_points"] = sorted({json.dumps(point_key(p)) for s in scenarios for p in s["model"]["points"]})
     # 4. replay on the real core
     def unmet(ls):
-        return [ln for ln in ls if ln["ev"] in ("MGateWait", "Reconciled", "CoreStarted", "GateReached", "Acked") and not ln.get("ok", True)]
+        return [ln for ln in ls if ln["ev"] in ("MGateWait", "Reconciled", "CoreStarted", "GateReached", "Acked", "Orphans")
+                and not ln.get("ok", True)]
 
     lines = run_isolated(ctx, scenarios)
     bad = unmet(lines)
